@@ -46,7 +46,8 @@ def gen_body(rng, gspec):
     if kind == "truncate":
         f["n"] = 1 + rng.choice([0, 1, 5, es - 1, es - 2, rng.randrange(es + 1)]) % (es + 1)
     elif kind == "extend":
-        f["with"] = rng.choice(["zero", "ff", "rand", "dup"])
+        f["with"] = rng.choice(["zero", "ff", "rand", "dup", "framing"])
+        f["tail"] = rng.randrange(len(faults.FRAMING_TAILS))
         f["n"] = rng.choice([1, 1, 2, es, rng.randrange(1, 2 * es + 2)])
         f["seed"] = rng.randrange(1 << 16)
     elif kind == "noncanon":
